@@ -1117,7 +1117,7 @@ func (t c10Tree) classify(cls string, out string) string {
 		return "C10/build-does-not-return"
 	}
 	undecided := false
-	modes := []c10Mode{{ListKeyRegex: true}} // the emulations of the repaired defects (double image update, live source) are gone: a reappearance is unlisted
+	modes := []c10Mode{{ImgTwice: true}, {ListKeyRegex: true}} // the emulation of the repaired live source is gone: a reappearance is unlisted
 	for _, m := range modes {
 		if m.ImgTwice && len(t.Images) == 0 {
 			continue
